@@ -58,84 +58,93 @@ Proof.
 Qed.
 
 (** * The root collector *)
+Lemma root_ents_layered : forall s c m a, root_ents (CLayered s c) m a = root_ents c m a.
+Proof. reflexivity. Qed.
+Lemma root_ents_wrap : forall w c m a, root_ents (CWrap w c) m a = root_ents c m a.
+Proof. reflexivity. Qed.
+Lemma leaf_call : forall v i b m a,
+  call (coll_obj (etb v) (CLeaf i b)) m a = (root_ents (CLeaf i b) m a, snd (leaf_coll i b m a)).
+Proof. reflexivity. Qed.
+
+Definition layer_meth (m : meth) : meth :=
+  match m with
+  | record => on_record | record_follows_from => on_follows_from | event => on_event | enter => on_enter | exit => on_exit | _ => m
+  end.
+
 Lemma root_unit : forall v c m a, cscope m = true -> mkind m = KU -> m <> drop_span -> m <> on_register_dispatch ->
-  call (coll_obj (etb v) c) m a = ((root_id c, m, a) :: ents (match m with
-                                                               | record => on_record | record_follows_from => on_follows_from
-                                                               | event => on_event | enter => on_enter | exit => on_exit | _ => m end) a
-                                     (match m with current_span => [] | _ => coll_recv false (match m with
-                                                               | record => on_record | record_follows_from => on_follows_from
-                                                               | event => on_event | enter => on_enter | exit => on_exit | _ => m end) c end), RUnit).
+  call (coll_obj (etb v) c) m a =
+    (root_ents c m a ++ ents (layer_meth m) a (match m with current_span => [] | _ => coll_recv false (layer_meth m) c end), RUnit).
 Proof.
   intros v c m a Hm Hk Hd Hr. induction c.
-  - destruct m; try discriminate Hm; try discriminate Hk; try congruence; reflexivity.
+  - rewrite leaf_call. destruct m; try discriminate Hm; try discriminate Hk; try congruence; cbn [snd leaf_coll coll_recv ents map layer_meth];
+      rewrite app_nil_r; reflexivity.
   - rewrite cwrap_call by exact Hm. exact IHc.
   - rewrite coll_unf_layered. tie3. unfold layered_sem at 1.
     destruct m; try discriminate Hm; try discriminate Hk; try congruence; crow; rewrite ?IHc;
-      rewrite ?(sub_unit v s) by reflexivity; cbn [fst pof coll_recv root_id coll_root app]; rewrite ?ents_app; reflexivity.
+      rewrite ?(sub_unit v s) by reflexivity; cbn [fst pof coll_recv layer_meth]; rewrite ?root_ents_layered, ?ents_app, ?app_assoc; reflexivity.
 Qed.
 
 (** `record`, `record_follows_from`, `event`, `enter`, `exit`: the root, then every layer once, inner before outer. *)
 Theorem once_inner_first_v : forall v c mc ms a, In (mc, ms) notif_pairs ->
-  call (coll_obj (etb v) c) mc a = ((root_id c, mc, a) :: ents ms a (coll_recv false ms c), RUnit).
+  call (coll_obj (etb v) c) mc a = (root_ents c mc a ++ ents ms a (coll_recv false ms c), RUnit).
 Proof.
   intros v c mc ms a H. cbn [notif_pairs In] in H.
   destruct H as [H|[H|[H|[H|[H|[]]]]]]; inversion H; subst; apply (root_unit v c); try reflexivity; discriminate.
 Qed.
 
-Theorem current_span_v : forall v c a, call (coll_obj (etb v) c) current_span a = ([(root_id c, current_span, a)], RUnit).
-Proof. intros. apply (root_unit v c current_span); try reflexivity; discriminate. Qed.
+Theorem current_span_v : forall v c a, call (coll_obj (etb v) c) current_span a = (root_ents c current_span a, RUnit).
+Proof. intros. rewrite (root_unit v c current_span) by (try reflexivity; discriminate). cbn [ents map]. rewrite app_nil_r. reflexivity. Qed.
 
 (** `new_span`: the root hands out the id, every layer then sees `on_new_span` with that id. *)
 Theorem new_span_v : forall v c a,
   call (coll_obj (etb v) c) new_span a =
-    ((root_id c, new_span, a) :: ents on_new_span (a_cs a, a_id a, 0) (coll_recv false on_new_span c), RId (a_id a)).
+    (root_ents c new_span a ++ ents on_new_span (a_cs a, a_id a, 0) (coll_recv false on_new_span c), RId (a_id a)).
 Proof.
   intros v c a. induction c.
-  - reflexivity.
+  - rewrite leaf_call. cbn [snd leaf_coll coll_recv ents map]. rewrite app_nil_r. reflexivity.
   - rewrite cwrap_call by reflexivity. exact IHc.
   - rewrite coll_unf_layered. tie3. unfold layered_sem at 1. crow. rewrite IHc.
-    rewrite (sub_unit v s) by reflexivity. cbn [fst pof coll_recv root_id coll_root app]. rewrite ents_app. reflexivity.
+    rewrite (sub_unit v s) by reflexivity. cbn [fst pof coll_recv]. rewrite root_ents_layered, ents_app, app_assoc. reflexivity.
 Qed.
 
 (** `try_close`: the layers hear `on_close` iff the root says the span closed. *)
 Theorem try_close_v : forall v c a,
   call (coll_obj (etb v) c) try_close a =
     if b_close (root_beh c) (a_id a)
-    then ((root_id c, try_close, a) :: ents on_close a (coll_recv false on_close c), RBool true)
-    else ([(root_id c, try_close, a)], RBool false).
+    then (root_ents c try_close a ++ ents on_close a (coll_recv false on_close c), RBool true)
+    else (root_ents c try_close a, RBool false).
 Proof.
   intros v c a. induction c.
-  - change (call (coll_obj (etb v) (CLeaf i b)) try_close a) with ([(i, try_close, a)], RBool (b_close b (a_id a))).
-    change (root_beh (CLeaf i b)) with b. change (root_id (CLeaf i b)) with i. destruct (b_close b (a_id a)); reflexivity.
+  - rewrite leaf_call. cbn [snd leaf_coll coll_recv ents map]. change (root_beh (CLeaf i b)) with b. rewrite app_nil_r.
+    destruct (b_close b (a_id a)); reflexivity.
   - rewrite cwrap_call by reflexivity. exact IHc.
   - rewrite coll_unf_layered. tie3. unfold layered_sem at 1. crow. rewrite IHc.
-    change (root_beh (CLayered s c)) with (root_beh c). change (root_id (CLayered s c)) with (root_id c).
+    change (root_beh (CLayered s c)) with (root_beh c). rewrite root_ents_layered.
     destruct (b_close (root_beh c) (a_id a)); cbv beta iota; [|reflexivity].
-    rewrite (sub_unit v s) by reflexivity. cbn [fst pof coll_recv app]. rewrite ents_app. reflexivity.
+    rewrite (sub_unit v s) by reflexivity. cbn [fst pof coll_recv]. rewrite ents_app, app_assoc. reflexivity.
 Qed.
 
-(** `clone_span`: the layers hear `on_id_change` iff the root returned a different id. *)
+(** `clone_span`: the layers hear `on_id_change` iff the root returned a different id (a `Registry` never does). *)
 Theorem clone_span_v : forall v c a,
   call (coll_obj (etb v) c) clone_span a =
-    let nw := b_clone (root_beh c) (a_id a) in
-    ((root_id c, clone_span, a) ::
+    let nw := r_clone (root_beh c) (a_id a) in
+    (root_ents c clone_span a ++
        (if nw =? a_id a then [] else ents on_id_change (a_cs a, a_id a, nw) (coll_recv false on_id_change c)), RId nw).
 Proof.
   intros v c a. induction c.
-  - change (call (coll_obj (etb v) (CLeaf i b)) clone_span a) with ([(i, clone_span, a)], RId (b_clone b (a_id a))).
-    change (root_beh (CLeaf i b)) with b. change (root_id (CLeaf i b)) with i. cbv zeta.
-    destruct (b_clone b (a_id a) =? a_id a); reflexivity.
+  - rewrite leaf_call. cbn [snd leaf_coll coll_recv ents map]. change (root_beh (CLeaf i b)) with b. cbv zeta.
+    destruct (r_clone b (a_id a) =? a_id a); rewrite app_nil_r; reflexivity.
   - rewrite cwrap_call by reflexivity. exact IHc.
   - rewrite coll_unf_layered. tie3. unfold layered_sem at 1. crow. rewrite IHc. cbv beta iota zeta.
-    change (root_beh (CLayered s c)) with (root_beh c). change (root_id (CLayered s c)) with (root_id c).
-    destruct (b_clone (root_beh c) (a_id a) =? a_id a); [reflexivity|].
-    rewrite (sub_unit v s) by reflexivity. cbn [fst pof coll_recv app]. rewrite ents_app. reflexivity.
+    change (root_beh (CLayered s c)) with (root_beh c). rewrite root_ents_layered.
+    destruct (r_clone (root_beh c) (a_id a) =? a_id a); [reflexivity|].
+    rewrite (sub_unit v s) by reflexivity. cbn [fst pof coll_recv]. rewrite ents_app, app_assoc. reflexivity.
 Qed.
 
 (** The deprecated `drop_span`: a `Layered` turns it into `try_close`; a bare (possibly boxed) root sees it as it is. *)
 Theorem drop_span_v : forall v c a,
   call (coll_obj (etb v) c) drop_span a =
-    if coll_has_layer c then (fst (call (coll_obj (etb v) c) try_close a), RUnit) else ([(root_id c, drop_span, a)], RUnit).
+    if coll_has_layer c then (fst (call (coll_obj (etb v) c) try_close a), RUnit) else (root_ents c drop_span a, RUnit).
 Proof.
   intros v c a. induction c.
   - reflexivity.
@@ -146,13 +155,13 @@ Qed.
 (** `on_register_dispatch` and (at build time) `on_subscribe`: every layer exactly once. *)
 Theorem register_dispatch_v : forall v c a,
   call (coll_obj (etb v) c) on_register_dispatch a =
-    ((root_id c, on_register_dispatch, a) :: ents on_register_dispatch a (coll_recv (negb v) on_register_dispatch c), RUnit).
+    (root_ents c on_register_dispatch a ++ ents on_register_dispatch a (coll_recv (negb v) on_register_dispatch c), RUnit).
 Proof.
   intros v c a. induction c.
-  - reflexivity.
+  - rewrite leaf_call. cbn [snd leaf_coll coll_recv ents map]. rewrite app_nil_r. reflexivity.
   - rewrite cwrap_call by reflexivity. exact IHc.
   - rewrite coll_unf_layered. tie3. unfold layered_sem at 1. crow. rewrite IHc.
-    rewrite (sub_unit v s) by reflexivity. cbn [fst pof coll_recv root_id coll_root app]. rewrite ents_app. reflexivity.
+    rewrite (sub_unit v s) by reflexivity. cbn [fst pof coll_recv]. rewrite root_ents_layered, ents_app, app_assoc. reflexivity.
 Qed.
 
 Theorem build_log_v : forall v c, build_log (etb v) c = ents on_subscribe arg0 (coll_recv true on_subscribe c).
@@ -251,8 +260,9 @@ Theorem query_outer_first_until_veto_v : forall v c q a,
   call (coll_obj (etb v) c) (q_meth q) a = q_out q a (until_veto (q_ans q a) (coll_ask c)).
 Proof.
   intros v c q a. induction c.
-  - destruct q; cbv [q_out q_meth q_ans filt_obj sub_obj coll_obj call leaf_filt leaf_sub leaf_coll filt_q sub_ask coll_ask map until_veto ents fst snd];
-      [destruct (b_enabled b (a_cs a))|destruct (b_event_enabled b (a_cs a))]; reflexivity.
+  - rewrite leaf_call. unfold q_out, root_ents. cbn [coll_ask root_beh coll_root root_id fst snd].
+    destruct q; cbn [q_meth q_ans leaf_coll snd]; unfold r_enabled, r_event_enabled; destruct (b_registry b); cbn [until_veto q_ans]; cbn [ents map fst snd];
+      try reflexivity; [destruct (b_enabled b (a_cs a))|destruct (b_event_enabled b (a_cs a))]; reflexivity.
   - rewrite cwrap_call by (destruct q; reflexivity). exact IHc.
   - rewrite coll_unf_layered. tie3. unfold layered_sem at 1. cbn [coll_ask]. rewrite until_veto_app.
     pose proof (sub_query v s q a) as HS.
@@ -309,7 +319,104 @@ Proof.
     + exists [], i, k, b. repeat split; try (left; reflexivity); try exact E. intros j [].
 Qed.
 
-(** * `register_callsite` on linear stacks *)
+(** * `register_callsite` on every stack: the tree walk of Spec.v ([rc_coll]) *)
+Definition rc_out (r : list entry * interest) : out := (fst r, RInt (snd r)).
+
+Lemma filt_rc_v : forall v f a, call (filt_obj (etb v) f) callsite_enabled a = rc_out (filt_rc a f).
+Proof.
+  intros v f a. induction f.
+  - reflexivity.
+  - rewrite fwrap_call by reflexivity. exact IHf.
+  - destruct v; vm_compute; reflexivity.
+Qed.
+
+Lemma vec_rc_flat : forall v a xs,
+  Forall (fun s => call (sub_obj (etb v) s) register_callsite a = rc_out (rc_sub a s)) xs ->
+  forall p q, vec_interest_all (map call (map (sub_obj (etb v)) xs)) register_callsite a p q =
+    (List.concat (map fst (map (rc_sub a) xs)),
+     RInt (interest_all (p || existsb (fun r => is_never (snd r)) (map (rc_sub a) xs))
+                        (q && forallb (fun r => is_always (snd r)) (map (rc_sub a) xs)))).
+Proof.
+  intros v a xs H. induction H; intros p q; cbn [map vec_interest_all List.concat existsb forallb].
+  - rewrite orb_false_r, andb_true_r. reflexivity.
+  - rewrite H. unfold rc_out at 1. rewrite IHForall. rewrite orb_assoc, andb_assoc. reflexivity.
+Qed.
+
+Lemma sub_rc_v : forall v s a, call (sub_obj (etb v) s) register_callsite a = rc_out (rc_sub a s).
+Proof.
+  intros v s a. induction s using sub_ind'.
+  - reflexivity.
+  - rewrite swrap_call by reflexivity. exact IHs.
+  - destruct v; vm_compute; reflexivity.
+  - rewrite sub_unf_vec. tie3. unfold vec_sem at 1. crow. rewrite (vec_rc_flat v a xs H). reflexivity.
+  - rewrite sub_unf_pair. tie3. unfold layered_sem at 1. crow. cbn [meth_name]. crow. rewrite IHs1, IHs2.
+    cbn [rc_sub]. unfold rc_out, rc_pick. destruct (rc_sub a s1) as [lo io]. destruct (rc_sub a s2) as [li ii]. cbn [fst snd].
+    destruct io; cbn; try reflexivity. destruct ii; reflexivity.
+  - destruct v; vm_compute; reflexivity.
+  - rewrite sub_unf_probe. unfold probe_sem. apply filt_rc_v.
+Qed.
+
+Lemma flags_hsf : forall c, hsf (flags_of_root c) = false.
+Proof. destruct c; reflexivity. Qed.
+Lemma flags_ihsf_always : forall a c, ihsf (flags_of_root c) = true -> snd (rc_coll a c) = IAlways.
+Proof. intros a c. destruct c; cbn; intro H; try discriminate H. unfold r_interest. rewrite H. reflexivity. Qed.
+
+(** Every stack, every callsite: who is asked, in which order, who is skipped after a `never`, and the answer. *)
+Theorem register_callsite_v : forall v c a, call (coll_obj (etb v) c) register_callsite a = rc_out (rc_coll a c).
+Proof.
+  intros v c a. induction c.
+  - reflexivity.
+  - rewrite cwrap_call by reflexivity. exact IHc.
+  - rewrite coll_unf_layered. tie3. unfold layered_sem at 1. crow. rewrite (sub_rc_v v s a), IHc.
+    cbn [rc_coll]. unfold rc_out, rc_pick. rewrite flags_hsf. pose proof (flags_ihsf_always a c) as HA.
+    destruct (rc_sub a s) as [lo io]. destruct (rc_coll a c) as [li ii]. cbn [fst snd negb andb] in *.
+    unfold pick_interest_res. rewrite flags_hsf.
+    destruct io; cbn [is_never is_sometimes]; try reflexivity.
+    destruct (ihsf (flags_of_root c)); [rewrite (HA eq_refl); reflexivity|rewrite andb_false_r; reflexivity].
+Qed.
+
+(** The walk visits nobody twice and nobody out of order: what is logged is a subsequence of [coll_ask]. *)
+Inductive sublist {A} : list A -> list A -> Prop :=
+| sub_nil : forall l, sublist [] l
+| sub_take : forall x l1 l2, sublist l1 l2 -> sublist (x :: l1) (x :: l2)
+| sub_skip : forall x l1 l2, sublist l1 l2 -> sublist l1 (x :: l2).
+Lemma sublist_refl : forall A (l : list A), sublist l l.
+Proof. induction l; constructor; assumption. Qed.
+Lemma sublist_app : forall A (a b c d : list A), sublist a c -> sublist b d -> sublist (a ++ b) (c ++ d).
+Proof. intros A a b c d H. induction H; cbn [app]; intro Hb; [induction l; [exact Hb|constructor; exact IHl]|constructor; auto|constructor; auto]. Qed.
+Lemma sublist_app_l : forall A (a c d : list A), sublist a c -> sublist a (c ++ d).
+Proof. intros A a c d H. rewrite <- (app_nil_r a). apply sublist_app; [exact H|constructor]. Qed.
+
+Definition ids (l : list entry) : list N := map (fun e => fst (fst e)) l.
+Definition ask_ids (l : list (N * bool * beh)) : list N := map (fun x => fst (fst x)) l.
+
+Lemma filt_rc_sub : forall a f, sublist (ids (fst (filt_rc a f))) (ask_ids (map (fun ib => (fst ib, true, snd ib)) (filt_q f))).
+Proof. intros a f. induction f; cbn; [apply sublist_refl|exact IHf|constructor]. Qed.
+Lemma rc_sub_sub : forall a s, sublist (ids (fst (rc_sub a s))) (ask_ids (sub_ask s)).
+Proof.
+  intros a s. induction s using sub_ind'; cbn [rc_sub sub_ask].
+  - apply sublist_refl.
+  - exact IHs.
+  - constructor.
+  - cbn [fst]. induction H; cbn [map List.concat flat_map]; [constructor|].
+    unfold ids, ask_ids in *. rewrite !map_app. apply sublist_app; assumption.
+  - unfold rc_pick. destruct (is_never (snd (rc_sub a s1))); cbn [fst]; unfold ids, ask_ids in *; rewrite !map_app.
+    + apply sublist_app_l. exact IHs1.
+    + apply sublist_app; assumption.
+  - constructor.
+  - apply filt_rc_sub.
+Qed.
+Theorem rc_coll_sublist : forall a c, sublist (ids (fst (rc_coll a c))) (ask_ids (coll_ask c)).
+Proof.
+  intros a c. induction c; cbn [rc_coll coll_ask].
+  - cbn [fst]. destruct (b_registry b); apply sublist_refl.
+  - exact IHc.
+  - unfold rc_pick. destruct (is_never (snd (rc_sub a s))); cbn [fst]; unfold ids, ask_ids in *; rewrite !map_app.
+    + apply sublist_app_l. apply rc_sub_sub.
+    + apply sublist_app; [apply rc_sub_sub|exact IHc].
+Qed.
+
+(** On a linear stack the tree walk is the plain list walk [rc_until] over [coll_ask]. *)
 Lemma linear_sub_ask : forall s, linear_sub s = true -> sub_ask s = [] \/ exists x, sub_ask s = [x].
 Proof.
   induction s using sub_ind'; cbn [linear_sub sub_ask]; intro Hl; try discriminate Hl.
@@ -323,54 +430,42 @@ Proof.
   - induction f; cbn [filt_q map]; [right; eexists; reflexivity|exact IHf|left; reflexivity].
 Qed.
 
-Definition rc_out (r : list entry * interest) : out := (fst r, RInt (snd r)).
-
-Lemma filt_rc : forall v f a, a = (a_cs a, 0, 0) ->
-  call (filt_obj (etb v) f) callsite_enabled a = rc_out (rc_until (a_cs a) (map (fun ib => (fst ib, true, snd ib)) (filt_q f))).
+Lemma filt_rc_linear : forall a f, a = (a_cs a, 0, 0) ->
+  filt_rc a f = rc_until (a_cs a) (map (fun ib => (fst ib, true, snd ib)) (filt_q f)).
 Proof.
-  intros v f a Ha. induction f.
-  - cbv [rc_out filt_obj sub_obj coll_obj call leaf_filt leaf_sub leaf_coll filt_q sub_ask coll_ask map rc_until rc_meth fst snd].
-    rewrite <- Ha. destruct (b_interest b (a_cs a)); reflexivity.
-  - rewrite fwrap_call by reflexivity. exact IHf.
-  - destruct v; vm_compute; reflexivity.
+  intros a f Ha. induction f; cbn [filt_rc filt_q map rc_until fst snd rc_meth]; [|exact IHf|reflexivity].
+  rewrite <- Ha. destruct (b_interest b (a_cs a)); reflexivity.
 Qed.
-
-Lemma sub_rc : forall v s a, a = (a_cs a, 0, 0) -> linear_sub s = true ->
-  call (sub_obj (etb v) s) register_callsite a = rc_out (rc_until (a_cs a) (sub_ask s)).
+Lemma rc_sub_linear : forall a s, a = (a_cs a, 0, 0) -> linear_sub s = true -> rc_sub a s = rc_until (a_cs a) (sub_ask s).
 Proof.
-  intros v s a Ha. induction s using sub_ind'; cbn [linear_sub]; intro Hl; try discriminate Hl.
-  - cbv [rc_out filt_obj sub_obj coll_obj call leaf_filt leaf_sub leaf_coll filt_q sub_ask coll_ask map rc_until rc_meth fst snd].
-    rewrite <- Ha. destruct (b_interest b (a_cs a)); reflexivity.
-  - rewrite swrap_call by reflexivity. apply IHs; exact Hl.
-  - destruct v; vm_compute; reflexivity.
+  intros a s Ha. induction s using sub_ind'; cbn [linear_sub]; intro Hl; try discriminate Hl; cbn [rc_sub sub_ask].
+  - cbn [rc_until rc_meth]. rewrite <- Ha. destruct (b_interest b (a_cs a)); reflexivity.
+  - apply IHs; exact Hl.
+  - reflexivity.
   - destruct xs as [|x [|y r]]; try discriminate Hl.
-    + destruct v; vm_compute; reflexivity.
-    + rewrite vec1_call by reflexivity. inversion H; subst. cbn [sub_ask flat_map]. rewrite app_nil_r. apply H2; exact Hl.
-  - destruct v; vm_compute; reflexivity.
-  - rewrite sub_unf_probe. unfold probe_sem. cbn [sub_ask]. apply filt_rc; exact Ha.
+    + reflexivity.
+    + inversion H; subst. cbn [map List.concat existsb forallb flat_map]. rewrite !app_nil_r, <- (H2 Hl).
+      destruct (rc_sub a x) as [l i0]. cbn [fst snd]. destruct i0; reflexivity.
+  - reflexivity.
+  - apply filt_rc_linear; exact Ha.
 Qed.
-
-Theorem register_callsite_linear_v : forall v c a, a = (a_cs a, 0, 0) -> linear c = true ->
-  call (coll_obj (etb v) c) register_callsite a = rc_out (rc_until (a_cs a) (coll_ask c)).
+Theorem rc_coll_linear : forall a c, a = (a_cs a, 0, 0) -> linear c = true -> rc_coll a c = rc_until (a_cs a) (coll_ask c).
 Proof.
-  intros v c a Ha. induction c; cbn [linear]; intro Hl.
-  - cbv [rc_out filt_obj sub_obj coll_obj call leaf_filt leaf_sub leaf_coll filt_q sub_ask coll_ask map rc_until rc_meth fst snd].
-    rewrite <- Ha. destruct (b_interest b (a_cs a)); reflexivity.
-  - rewrite cwrap_call by reflexivity. apply IHc; exact Hl.
-  - apply andb_prop in Hl. destruct Hl as [Hs Hc]. rewrite coll_unf_layered. tie3. unfold layered_sem at 1. crow.
-    rewrite (sub_rc v s a Ha Hs), (IHc Hc). cbn [coll_ask]. unfold rc_out.
-    destruct (linear_sub_ask s Hs) as [E|[[[i k] b] E]]; rewrite E; cbn [app rc_until fst snd].
-    + destruct (rc_until (a_cs a) (coll_ask c)) as [l y]. cbn [fst snd is_sometimes]. reflexivity.
-    + destruct (b_interest b (a_cs a)); cbn [fst snd]; try reflexivity;
-        destruct (rc_until (a_cs a) (coll_ask c)) as [l y]; cbn [fst snd is_sometimes app]; reflexivity.
+  intros a c Ha. induction c; cbn [linear rc_coll coll_ask]; intro Hl.
+  - unfold r_interest. destruct (b_registry b); [reflexivity|]. cbn [rc_until rc_meth]. rewrite <- Ha. destruct (b_interest b (a_cs a)); reflexivity.
+  - apply IHc; exact Hl.
+  - apply andb_prop in Hl. destruct Hl as [Hs Hc]. rewrite (rc_sub_linear a s Ha Hs), (IHc Hc). unfold rc_pick.
+    destruct (linear_sub_ask s Hs) as [E|[[[i k] b] E]]; rewrite E; cbn [app rc_until fst snd is_never is_sometimes].
+    + destruct (rc_until (a_cs a) (coll_ask c)); reflexivity.
+    + destruct (b_interest b (a_cs a)); cbn [fst snd is_never is_sometimes app]; try reflexivity;
+        destruct (rc_until (a_cs a) (coll_ask c)); reflexivity.
 Qed.
 
 (** * All of the above at the level the harness observes: one dispatcher-level operation on a stack *)
 Theorem spec_op_sound_v : forall v c o l, spec_op c o = Some l -> fst (run_op (etb v) (coll_obj (etb v) c) o) = l.
 Proof.
   intros v c o l H. unfold run_op. destruct o; cbn [spec_op op_call] in *; try discriminate H.
-  - destruct (linear c) eqn:El; [|discriminate H]. inversion H; subst l. unfold dispatch_sem. crow.
-    rewrite (register_callsite_linear_v v c (cs, 0, 0) eq_refl El). reflexivity.
+  - inversion H; subst l. unfold dispatch_sem. crow. rewrite (register_callsite_v v c (cs, 0, 0)). reflexivity.
   - inversion H; subst l. unfold dispatch_sem. crow.
     pose proof (query_outer_first_until_veto_v v c QEnabled (cs, 0, 0)) as HQ. cbn [q_meth] in HQ. rewrite HQ. reflexivity.
   - inversion H; subst l. unfold dispatch_sem. crow. rewrite new_span_v. reflexivity.
@@ -382,9 +477,9 @@ Proof.
   - inversion H; subst l. unfold dispatch_sem. crow. rewrite (once_inner_first_v v c exit on_exit) by (cbn; tauto). reflexivity.
   - inversion H; subst l. unfold dispatch_sem. crow. rewrite clone_span_v. reflexivity.
   - inversion H; subst l. unfold dispatch_sem. crow. rewrite try_close_v. cbn [a_id fst snd].
-    destruct (b_close (root_beh c) id); reflexivity.
+    destruct (b_close (root_beh c) id); [reflexivity|rewrite app_nil_r; reflexivity].
   - unfold dispatch_sem. crow. rewrite drop_span_v. destruct (coll_has_layer c).
-    + inversion H; subst l. rewrite try_close_v. cbn [a_id fst snd]. destruct (b_close (root_beh c) id); reflexivity.
+    + inversion H; subst l. rewrite try_close_v. cbn [a_id fst snd]. destruct (b_close (root_beh c) id); [reflexivity|rewrite app_nil_r; reflexivity].
     + inversion H; subst l. reflexivity.
   - inversion H; subst l. unfold dispatch_sem. crow. rewrite current_span_v. reflexivity.
 Qed.
